@@ -24,14 +24,16 @@ RULE = ("each input is decoded by the real Message.fromStr under a sys.settrace 
         "2-byte window replaced by a pointer to every offset of the message; (c) pointer graphs: every name region of <= P "
         "bytes over {00,01,'a',c0,0c,0d,0e} placed at offset 12 (c0 0c..0e point into the region: self loops, mutual cycles, "
         "pointers into pointers) as a question name that a second question points back into, and (quick: <= P-1 bytes) as the owner of an NS record whose rdata and a following record point back into it. "
-        "non-trivial = input whose decode followed a compression pointer, hit EOF inside a record, raised ValueError, or "
+        "(g) pointer graphs proper: K two-byte slots from offset 12 (question name, record owner) or 23 (NS rdata name), each slot a "
+        "pointer to any slot, a terminator or a one-byte label -- every functional graph, i.e. every chain of up to K pointers "
+        "ending in a self-loop or a cycle with or without the first target. non-trivial = input whose decode followed a compression pointer, hit EOF inside a record, raised ValueError, or "
         "produced at least one record")
-BOUNDS = {"quick": "L = 3, P = 6, pair mutations restricted to rdlength x rdata",
-          "thorough": "L = 4, P = 7, plus every pair of positions of each seed's record x {00,0c,c0,ff}^2"}
+BOUNDS = {"quick": "L = 3, P = 6, K = 5, pair mutations restricted to rdlength x rdata",
+          "thorough": "L = 4, P = 7, K = 6, plus every pair of positions of each seed's record x {00,0c,c0,ff}^2"}
 ASSUMPTIONS = ["termination is decided by a step budget ~35x above the costliest legitimate decode of the space, not by a proof",
                "Message.fromStr is the decode entry point of both protocols (checked against datagramReceived/dataReceived at "
                "run time: family (b) seeds are also pushed through both protocol classes)"]
-MIN = {"quick": {"evaluations": 360000, "nontrivial": 275000, "outcomes": 4},
+MIN = {"quick": {"evaluations": 400000, "nontrivial": 314000, "outcomes": 4},
        "thorough": {"evaluations": 2700000, "nontrivial": 2100000, "outcomes": 4}}
 
 BUDGET = 20000
@@ -208,7 +210,22 @@ def family_c(P):
                    + b"\xc0\x0c" + struct.pack("!HHIH", 5, 1, 0, 2) + b"\xc0\x0e")
 
 
-FAMILIES = {"a": 4, "r": 12, "b": 16, "c": 16}
+def family_g(K):
+    """Functional graphs on two-byte slots: slot i sits at base + 2i and is a pointer to any slot, a terminator or a
+    one-byte label (falls through to the next slot).  Every chain of pointers ending in a self-loop or in a cycle that
+    does or does not contain the first target occurs (e.g. 12 -> 14 -> 16 -> 16)."""
+    tailq = struct.pack("!HH", 1, 1)
+    for k in range(1, K + 1):
+        for base, pre, post in (
+                (12, header(1, 0, 0, 0), tailq),                                              # question name
+                (12, header(0, 1, 0, 0), struct.pack("!HHIH", 1, 1, 0, 4) + b"\x01\x02\x03\x04"),   # owner of an A record
+                (23, header(0, 1, 0, 0) + b"\x00" + struct.pack("!HHIH", 2, 1, 0, 2 * k), b"")):      # NS rdata name
+            choices = [struct.pack("!H", 0xC000 | (base + 2 * j)) for j in range(k)] + [b"\x00\x00", b"\x01a"]
+            for slots in itertools.product(choices, repeat=k):
+                yield ("g:k%d@%d" % (k, base), pre + b"".join(slots) + post)
+
+
+FAMILIES = {"a": 4, "r": 12, "b": 16, "c": 16, "g": 8}
 
 
 def shards(tier, seed):
@@ -230,6 +247,8 @@ def inputs(fam, tier):
         return family_r(L)
     if fam == "b":
         return family_b(tier)
+    if fam == "g":
+        return family_g(5 if tier == "quick" else 6)
     return family_c(P)
 
 
